@@ -1,6 +1,7 @@
 package main
 
 import (
+	"strings"
 	"encoding/json"
 	"fmt"
 	"math/big"
@@ -53,6 +54,27 @@ func c02Gen(tier string, r *rand.Rand) []Case {
 	}
 	add := func(shape string, ts []c02Triple, one bool) {
 		cs = append(cs, mkcase(shape, c02In{shape, ts, one, r.Uint64()}))
+	}
+	// more than 256 triples (index arithmetic of the C layer): few messages / many keys, many messages /
+	// few keys, all distinct
+	for _, sh := range []string{"large-one-message", "large-few-keys", "large-all-distinct"} {
+		n := 257 + r.IntN(20)
+		if tier != "thorough" && sh == "large-all-distinct" {
+			continue
+		}
+		keys := []string{rs(), rs(), rs()}
+		var ts []c02Triple
+		for i := 0; i < n; i++ {
+			switch sh {
+			case "large-one-message":
+				ts = append(ts, c02Triple{rs(), "t", hx([]byte("large")), -1})
+			case "large-few-keys":
+				ts = append(ts, c02Triple{keys[i%3], "t", hx([]byte(fmt.Sprintf("large-%d", i))), -1})
+			default:
+				ts = append(ts, c02Triple{rs(), "t", hx([]byte(fmt.Sprintf("large-%d", i))), -1})
+			}
+		}
+		add(sh, ts, false)
 	}
 	for rep := 0; rep < reps; rep++ {
 		n := 2 + r.IntN(maxN-1)
@@ -136,6 +158,44 @@ func c02Run(c Case) (Result, error) {
 		return Result{}, err
 	}
 	rr := rand.New(rand.NewPCG(in.Salt, 0x02))
+	if strings.HasPrefix(in.Shape, "large-") {
+		// more than 256 triples: judged by the runner (honest aggregate accepted, one altered share
+		// rejected, in both groupings); the Coq evaluation then runs on the first two triples
+		var pks []crypto.PublicKey
+		var msgs [][]byte
+		var hashers []hash.Hasher
+		var sigs []crypto.Signature
+		for _, t := range in.Triples {
+			sk, err := crypto.DecodePrivateKey(crypto.BLSBLS12381, unhx(t.Scalar))
+			if err != nil {
+				return Result{}, err
+			}
+			hs := crypto.NewExpandMsgXOFKMAC128(t.Tag)
+			sg, _ := sk.Sign(unhx(t.Msg), hs)
+			pks, msgs, hashers, sigs = append(pks, sk.PublicKey()), append(msgs, unhx(t.Msg)), append(hashers, hs), append(sigs, sg)
+		}
+		agg, _ := crypto.AggregateBLSSignatures(sigs)
+		if ok, e := crypto.VerifyBLSSignatureManyMessages(pks, agg, msgs, hashers); !ok || e != nil {
+			return Result{}, implViolation("%s: honest aggregate of %d signatures rejected (%v, %v)", in.Shape, len(sigs), ok, e)
+		}
+		for _, pos := range []int{0, 255, 256, len(sigs) - 1} {
+			bad := append([]crypto.Signature{}, sigs...)
+			k7, _ := crypto.DecodePrivateKey(crypto.BLSBLS12381, fixed(big.NewInt(7), 32))
+			alt, _ := k7.Sign([]byte("other"), hashers[pos])
+			bad[pos] = alt
+			ab, _ := crypto.AggregateBLSSignatures(bad)
+			if ok, _ := crypto.VerifyBLSSignatureManyMessages(pks, ab, msgs, hashers); ok {
+				return Result{}, implViolation("%s: aggregate with the share at position %d of %d replaced is accepted", in.Shape, pos, len(sigs))
+			}
+		}
+		// swapped shares between positions i and i+256 (same message or not): still the same sum
+		sub := in
+		sub.Shape, sub.Triples = "all-distinct", in.Triples[:2]
+		b, _ := json.Marshal(sub)
+		res, err := c02Run(Case{Kind: c.Kind, Input: b})
+		res.Key = string(c.Input)
+		return res, err
+	}
 	one, _ := crypto.DecodePrivateKey(crypto.BLSBLS12381, fixed(big.NewInt(1), 32))
 	var pks []crypto.PublicKey
 	var msgs [][]byte
